@@ -40,9 +40,10 @@ def run_replay(prop, ob, tier):
     os.makedirs(REPLAY_DIR, exist_ok=True)
     safe = ob['name'].replace('/', '_').replace('<', '').replace('>', '').replace('::', '--')
     path = os.path.join(REPLAY_DIR, f'{prop}-{safe}.json')
-    doc = {'property': prop, 'obligation': ob['name'], 'clause': ob['detail'], 'kind': ob['kind'],
+    doc = dict(ob.get('extra') or {})
+    doc.update({'property': prop, 'obligation': ob['name'], 'clause': ob['detail'], 'kind': ob['kind'],
            'counterexample': ob.get('counterexample'), 'solver': ob['backend'], 'solver_model': ob.get('model', ''),
-           'recipe': ob.get('replay'), 'tier': tier}
+           'recipe': ob.get('replay'), 'tier': tier})
     reproduced = None
     out = ''
     if ob.get('replay'):
@@ -50,7 +51,7 @@ def run_replay(prop, ob, tier):
         try:
             p = subprocess.run([REPLAY_PY, os.path.join(VERIF, 'replay', 'run.py'), path], capture_output=True, text=True,
                                timeout=300, env=dict(os.environ, PYTHONPATH=os.environ.get('PYVC_REPLAY_PYTHONPATH', '')))
-            out = (p.stdout + p.stderr)[-3000:]
+            out = (p.stdout + p.stderr)[-20000:]
             reproduced = p.returncode == 10
         except subprocess.TimeoutExpired:
             out = 'replay timed out'
@@ -173,6 +174,8 @@ def report(prop, tier, seed, t0, results, scan_results, pinfo, unit_recipes=None
     rc = 0
     # known findings: print only if the recorded history still fails on the real code
     for k in known:
+        if k.get('bounded'):
+            continue      # findings of a bounded search are matched by history key below
         hit = [o for o in known_hits if o.get('known_id') == k['id']]
         path, reproduced, out = (None, None, '')
         if k.get('replay'):
@@ -223,9 +226,19 @@ def report(prop, tier, seed, t0, results, scan_results, pinfo, unit_recipes=None
     # bounded native search with a stated bound
     bounded_out = []
     for b in pinfo.get('bounded', []):
+        kf = [k for k in known if k.get('bounded') == b['name']]
+        known_keys = sorted({h for k in kf for h in k.get('history_keys', [])})
         ob = {'name': f"bounded::{b['name']}", 'detail': f"bounded stand-in for {b['functions']}: {b['bound']}", 'kind': 'bounded',
-              'backend': 'native', 'replay': b['recipe'], 'counterexample': {'inputs': {}}}
+              'backend': 'native', 'replay': b['recipe'], 'counterexample': {'inputs': {}},
+              'extra': dict(b.get('args', {}), known_histories=known_keys)}
         path, reproduced, out = run_replay(prop, ob, tier)
+        still = {ln.split(None, 1)[1].strip() for ln in out.splitlines() if ln.startswith('KNOWN-HISTORY ')}
+        for k in kf:
+            mine = [h for h in k.get('history_keys', []) if h in still]
+            if mine:
+                print(f"KNOWN-FINDING: property={prop} {k['what']} [{len(mine)} of {len(k['history_keys'])} listed histories still fail, e.g. {mine[0]}]")
+            else:
+                print(f"NOTE property={prop} known finding {k['id']} appears fixed: none of its listed histories fails any more")
         bounded_out.append({'name': b['name'], 'functions': b['functions'], 'bound': b['bound'], 'recipe': b['recipe'],
                             'result': 'violated' if reproduced else 'held on everything explored', 'level': 'bounded'})
         if reproduced:
